@@ -242,11 +242,21 @@ class Patched:
         self._old_open = (builtins.open, io.open)
         builtins.open = _patched_open
         io.open = _patched_open
+        self._old_replace = os.replace
+
+        def replace(src, dst, *a, **kw):
+            r = self._old_replace(src, dst, *a, **kw)
+            s_ = CURRENT['sched']
+            if s_ is not None and s_.me() is not None and str(dst).startswith(self.root):
+                s_.event('entry-replaced', path=str(dst), src=str(src))
+            return r
+        os.replace = replace
         CURRENT['sched'], CURRENT['root'] = self.sched, self.root
         return self
 
     def __exit__(self, *exc):
         CURRENT['sched'], CURRENT['root'] = None, None
         builtins.open, io.open = self._old_open
+        os.replace = self._old_replace
         self._tc.FileLock = self._old_lock
         return False
